@@ -20,6 +20,10 @@ const rule = "A case is one history on a fresh database (hashmap ±shadow-delete
 	"(Put with / without / null Value, Delete, unregistered key, Get) and the config API (SetConfigOption, ReplaceConfig) with exact/prefix/other subscriptions, before and after cancel; " +
 	"purge kind: Interface.Purge of a subscribed prefix on a fresh bbolt database (0–5 records, interfaces with all / some / no privileges), implementation only; " +
 	"putmany lines: one-record batches through Interface.PutMany on hashmap / bbolt; " +
+	"rehook lines (in every history; samehook kind: 1–2 hook values × 2–3 registrations): an existing hook value registered again with the same / another query object, registrations cancelled in every order (also twice) with the same writes and reads after each cancel; " +
+	"hook-two-databases kind: one hook value registered any number of times on two hashmap databases, puts / gets on both, cancels by index (implementation only); " +
+	"reglife kind: a runtime registry through its life cycle — providers registered before and after InjectAsDatabase on nested keys and prefixes (about half refused), push functions called before / after the injection and before / after anybody subscribed, " +
+	"for keys inside and outside the pusher's prefix, single and multi-record pushes, all flags incl. deleted, subscribe / hook / read / write attempts before the injection, a second injection — mixed with the ordinary operations; " +
 	"concurrent kind: recorded traces of writers vs. Subscribe vs. Cancel (forced at the verif event points) replayed through the interleaving model. " +
 	"hconc kind: recorded traces of gets / puts (pre-get, post-get, pre-put hook phases; pass and veto hooks with prefix × condition queries) vs. 0–2 concurrent RegisteredHook.Cancel per hook, " +
 	"with the operation parked inside an earlier hook's call while a later hook is cancelled, Cancel called during a call of the same hook, Cancel inside its locked section vs. arriving operation, random pairs; replayed through the interleaving model of hooksLock. " +
